@@ -71,7 +71,7 @@ Why(r) ==
                  THEN "max-over-readable-files-disturbed"
             ELSE "ok")
         ELSE IF { NodeByPath(rows[i][1]) : i \in 1 .. Len(rows) } # all \/ Len(rows) # Cardinality(all) THEN "row-lost"
-        ELSE IF r.path = "metadata" THEN
+        ELSE IF r.path \in {"metadata", "archived"} THEN
            (IF \E i \in 1 .. Len(rows) : LET n == NodeByPath(rows[i][1]) IN
                    rows[i][2] # r.snapshot[n].size \/ rows[i][3] # Str(ModeChars(r.snapshot[n].mode)) \/ rows[i][4] # r.snapshot[n].nlink
             THEN "metadata-of-unreadable-entry-disturbed" ELSE "ok")
